@@ -15,6 +15,7 @@ from nrel.hive.state.entity_state import entity_state_ops
 from nrel.hive.state.simulation_state.simulation_state import SimulationState
 from nrel.hive.state.vehicle_state.charge_queueing import ChargeQueueing
 from nrel.hive.util import TupleOps
+from nrel.hive.util import verif_hooks
 
 if TYPE_CHECKING:
     from nrel.hive.runner.environment import Environment
@@ -39,6 +40,10 @@ def log_instructions(instructions: Tuple[Instruction, ...], env: Environment, si
 
 def step_vehicle(s: SimulationState, env: Environment, vehicle: Vehicle) -> SimulationState:
     error, updated_sim = vehicle.vehicle_state.update(s, env)
+    if verif_hooks.ENABLED:
+        verif_hooks.emit(
+            "vehicle_update", vehicle_id=vehicle.id, error=error, before=s, after=updated_sim, env=env
+        )
     if error:
         log.error(error)
         return s
@@ -143,8 +148,13 @@ def apply_instructions(
     # construct the vehicle state transitions
 
     results: List[InstructionResult] = []
+    verif_accepted: List[Instruction] = []
     for instruction in instructions:
         err, instruction_result = instruction.apply_instruction(sim, env)
+        if verif_hooks.ENABLED and (err is not None or instruction_result is None):
+            verif_hooks.emit(
+                "instruction", instruction=instruction, result=None, error=err, before=sim, after=None, env=env
+            )
         if err is not None:
             log.error(err)
             continue
@@ -158,12 +168,24 @@ def apply_instructions(
         sim = sim._replace(applied_instructions=updated_instructions)
 
         results.append(instruction_result)
+        verif_accepted.append(instruction)
 
+    verif_next = iter(verif_accepted)
     for instruction_result in results:
         result = entity_state_ops.transition_previous_to_next(
             sim, env, instruction_result.prev_state, instruction_result.next_state
         )
         update_error, updated_sim = result
+        if verif_hooks.ENABLED:
+            verif_hooks.emit(
+                "instruction",
+                instruction=next(verif_next, None),
+                result=instruction_result,
+                error=update_error,
+                before=sim,
+                after=updated_sim,
+                env=env,
+            )
         if update_error:
             log.error(update_error)
             continue
